@@ -153,6 +153,16 @@ def recoverOp (toks : List String) : String :=
     ({ st' with votesHeld := 1 }, acc.2 ++ [b01 st.hasProposal ++ b01 st.stepRecover ++ ":" ++ b01 (decide (st' ≠ st))])) (st0, [])
   "prop=" ++ b01 prop ++ " sr=" ++ b01 sr ++ " | " ++ " ".intercalate outs
 
+/-- `rounds seed= phase= k= sig= via=`: k votes of one fresh peer for k distinct unknown rounds; only a valid vote of the
+attacker's validator is acceptable; the answer is the number of rounds the stream opened -/
+def roundsOp (toks : List String) : String :=
+  let k := argN toks "k"
+  let ok := (arg? toks "sig") == some "val"
+  let h0 : Hvs := { rounds := [0, 1], charges := [] }
+  let vs : List VoteIn := (List.range k).map (fun (i : Nat) => { round := 10 + 7 * (i : Int), typeValid := true, acceptable := ok })
+  let h := h0.addVotes vs "hostile"
+  "opened=" ++ toString (h.rounds.length - h0.rounds.length)
+
 /-- the claim itself for the simulation ops (Props.C16 for the modelled handlers; the fuzz searches the rest): whatever was
 injected, the consensus routine is alive, unsigned input changed nothing, no single message caused a large allocation;
 one iteration of every per-peer gossip routine on the peer state the hostile messages built neither panics nor hangs and
@@ -168,6 +178,7 @@ def step (s : PS) (toks : List String) : PS × String :=
   | "gdiag" :: _ => (s, "dead=0 hung=0 badsend=0 bigalloc=0")
   | "bacheck" :: _ => (s, "badpick=0")
   | "recover" :: rest => (s, recoverOp rest)
+  | "rounds" :: rest => (s, roundsOp rest)
   | "ba" :: fn :: rest => (s, baOp fn rest)
   | "ps" :: fn :: rest => psOp s fn rest
   | _ => (s, "bad-op")
